@@ -43,6 +43,8 @@ def step' (st : St) : List String → St × String
   | ["delto", id] => doStep st (.deleteTo id) id
   | ["delfrom", id] => doStep st (.deleteFrom id) id
   | ["cancel", id] => doStep st (.cancel id) id
+  -- the robot's steps attempted by an ordinary client certificate: refused, nothing changes
+  | ["xto", _, _, _] | ["xcommit", _] | ["xdelto", _] | ["xdelfrom", _] | ["xcancel", _] => (st, "err")
   | ["dump"] => (st, dump st)
   | _ => (st, "bad-op")
 
@@ -54,6 +56,7 @@ def clause : List String → String
   | "fromadm" :: _ => "debit_once"
   | "to" :: _ => "credit_at_most_once"
   | "cancel" :: _ => "refund_exact"
+  | "xto" :: _ | "xcommit" :: _ | "xdelto" :: _ | "xdelfrom" :: _ | "xcancel" :: _ => "robot_step_by_stranger"
   | _ => "record_lifecycle"
 
 /-- judge: (1) replies and dumps equal the spec machine's; (2) independently, while the history
